@@ -212,6 +212,25 @@ def run(tier, seed):
                 if bool(so.strip()) != shown:
                     ck.fail('-f%s %s a PEL that the selection options %s' % (' -x' if hexopt else '', 'does not display' if shown else 'displays', 'select' if shown else 'do not select'),
                             {'op': 'cli-file', 'argv': argv_ + hexopt, 'severity': sev_, 'action_flags': af_, 'stdout': so[:200]}, 'file_selection')
+        # the same selection with a configuration directory whose component-id file for the creator is valid JSON of the wrong kind (a list, a number,
+        # a string, null) or has lower-case keys: what the file holds may change a display NAME, never whether the PEL is selected
+        import apel
+        for content_ in ([1, 2], 7, 'text', None, {'2000': 'lower'}, {'abcd': 'x', 'ABCD': 'y'}):
+            for sev_, af_, argv_, shown in ((0x40, 0x6000, [], False), (0x40, 0x6000, ['-H'], True), (0x00, 0x2000, ['-E'], True), (0x40, 0xA000, [], True),
+                                          (0x20, 0xA000, ['-O', '-S', 'Predictive'], True), (0x20, 0xA000, ['-O', '-S', 'Critical'], False)):
+                # (a new configuration for every run: the table is loaded while the FIRST log of a process is decoded)
+                env_ = apel.PluginEnv(allow=True, comp_ids={'o': content_, 'b': content_}).install()
+                try:
+                    fpath = os.path.join(tmpf, 'one.pel')
+                    open(fpath, 'wb').write(pelbuild.pel([pelbuild.UH(sev=sev_, af=af_, comp=0xABCD), pelbuild.SRC()]))
+                    so, se, sx = clirun.run_main(['-f', fpath] + argv_)
+                    ck.case(key=('file-selection-conf', repr(content_), sev_, af_, tuple(argv_)))
+                    ck.count('-f selection with a component-id file of the wrong JSON kind')
+                    if bool(so.strip()) != shown:
+                        ck.fail('with a component-id file holding %s, -f %s a PEL that the selection options %s' % (type(content_).__name__, 'does not display' if shown else 'displays', 'select' if shown else 'do not select'),
+                                {'op': 'cli-file', 'argv': argv_, 'severity': sev_, 'action_flags': af_, 'component_id_file': repr(content_), 'stdout': so[:200], 'stderr': se[-300:]}, 'file_selection_conf')
+                finally:
+                    env_.uninstall()
     finally:
         shutil.rmtree(tmpf, ignore_errors=True)
     # the Config that main() builds from the command line (PelModel/Main.lean: mkConfig, look-up flag)
